@@ -286,6 +286,10 @@ def main(argv):
         from . import kani
         for h in pc['kani']:
             extra.append(kani.run(h, prop))
+    if pc.get('dyn'):
+        from . import dyn
+        for h in pc['dyn']:
+            extra.append(dyn.run(h, prop, tier))
     if tier == 'thorough':
         from . import thorough
         extra += thorough.run(prop, pc, results, seed)
@@ -419,7 +423,7 @@ def main(argv):
         'coverage': {
             'obligations': obligations,
             'discharged': discharged,
-            'obligation_unit': 'one per exec function / proof lemma as counted by Verus (verified+errors); Kani harnesses counted one each',
+            'obligation_unit': 'one per exec function / proof lemma as counted by Verus (verified+errors); Kani harnesses and bounded executions (labelled bounded, not proofs) counted one each',
             'tagged_clauses_for_property': tagged,
             'checker_cmd': ' && '.join(checker_cmds) if checker_cmds else 'none',
             'trusted_base': sorted(trusted),
